@@ -28,6 +28,8 @@ def case_strategy():
 
     @st.composite
     def _case(draw):
+        if draw(st.integers(0, 4)) == 0:
+            return draw(G.literal_table_case())
         h = draw(H.hierarchies(1, 5))
         knames = H.class_names(h)
         env = H.build(h)
